@@ -6,7 +6,7 @@ CONSTANTS
   MaxOps = 4
   MaxTime = 5
   MaxKids = 2
-  Ops <- OpsAll
+  Ops <- OpsRaw
   Graces = {0, 2}
   KidClasses <- KidsBasic
 VIEW MCView
